@@ -576,6 +576,7 @@ func checkC08(w *World, r *Report) {
 	checkExpressionShortcuts(w, r)
 	checkExpressionTextIsSource(w, r, "R08.14")
 	checkOperandsNotPromoted(w, r)
+	checkPostfixParsersWrapTheirOperand(w, r)
 	checkNumberFormatting(w, r)
 	checkMembershipEquality(w, r, evalCases)
 	checkRelationalNumericFirst(w, r, evalCases)
@@ -1676,4 +1677,121 @@ func checkOperandsNotPromoted(w *World, r *Report) {
 		})
 	}
 	r.Counts["operands of operator nodes flowing into other nodes"] = n
+}
+
+// checkPostfixParsersWrapTheirOperand — R08.16: a filter applies to what it is written after.
+// A parser function that is handed the node parsed so far and builds FilterNodes around it
+// (`x|f|g`) returns — whenever it returns a node — that very node or one of the FilterNodes it
+// built: nothing else.  Returning a different node (the operand taken out of a unary operator,
+// re-wrapped after the filters were applied inside) re-associates the expression: `(-a)|abs`
+// would be read as `-(a|abs)`, and parentheses would stop overriding the grouping.
+func checkPostfixParsersWrapTheirOperand(w *World, r *Report) {
+	reach := w.parseReachable()
+	nodeT := w.lookup("Node").Type()
+	filterT := w.named("FilterNode")
+	n := 0
+	for _, fn := range w.pkgFuncs() {
+		if !reach[fn] {
+			continue
+		}
+		var operand *ssa.Parameter
+		for _, p := range fn.Params {
+			if types.Identical(p.Type(), nodeT) {
+				operand = p
+			}
+		}
+		if operand == nil {
+			continue
+		}
+		// FilterNodes built here
+		var built []ssa.Value
+		instrsOf(fn, func(in ssa.Instruction) {
+			switch x := in.(type) {
+			case *ssa.Alloc:
+				if types.Identical(deref(x.Type()), filterT) && x.Heap {
+					built = append(built, x)
+				}
+			case *ssa.Call:
+				if g := x.Call.StaticCallee(); g != nil && isTwigFn(g) && g.Signature.Results().Len() >= 1 && types.Identical(deref(g.Signature.Results().At(0).Type()), filterT) && g != fn {
+					built = append(built, x)
+				}
+			}
+		})
+		if len(built) == 0 {
+			continue
+		}
+		isBuilt := func(v ssa.Value) bool {
+			for _, b := range built {
+				if v == b {
+					return true
+				}
+			}
+			return false
+		}
+		instrsOf(fn, func(in ssa.Instruction) {
+			ret, ok := in.(*ssa.Return)
+			if !ok {
+				return
+			}
+			res := retResults(ret)
+			if len(res) == 0 || !types.Identical(res[0].Type(), nodeT) {
+				return
+			}
+			n++
+			bad := ""
+			seen := map[ssa.Value]bool{}
+			var walk func(v ssa.Value, d int)
+			walk = func(v ssa.Value, d int) {
+				v = unspill(v)
+				if seen[v] || d > 10 || bad != "" {
+					return
+				}
+				seen[v] = true
+				switch x := v.(type) {
+				case *ssa.Const:
+					return
+				case *ssa.Parameter:
+					if x == operand {
+						return
+					}
+				case *ssa.Phi:
+					for _, e := range x.Edges {
+						walk(e, d+1)
+					}
+					return
+				case *ssa.MakeInterface:
+					if isBuilt(x.X) {
+						return
+					}
+					walk(x.X, d+1)
+					return
+				case *ssa.ChangeInterface:
+					walk(x.X, d+1)
+					return
+				case *ssa.Extract:
+					// the result of a recursive call on the node built so far
+					if c, ok := x.Tuple.(*ssa.Call); ok && c.Call.StaticCallee() == fn {
+						for i, p := range fn.Params {
+							if p == operand && i < len(c.Call.Args) {
+								walk(c.Call.Args[i], d+1)
+							}
+						}
+						return
+					}
+				}
+				if isBuilt(v) {
+					return
+				}
+				bad = describe(v) + " (" + v.String() + ")"
+			}
+			walk(res[0], 0)
+			construct := "the node returned is the operand wrapped in the filters built here"
+			if bad == "" {
+				r.ok("R08.16", ssaName(fn), construct, w.posOf(ret.Pos()), "operand parameter or a FilterNode built in this function on every edge", true)
+			} else {
+				r.bad("R08.16", ssaName(fn), construct, w.posOf(ret.Pos()), "the function can return "+bad+", neither its operand nor a filter around it: the filters were applied to a part of the operand and the rest re-attached outside — the expression is re-associated and parentheses no longer decide the grouping")
+			}
+		})
+	}
+	r.floor("returns of filter-chain parsers", n, 1)
 }
